@@ -462,7 +462,7 @@ func mapIs(p *an.Prog, v ssa.Value, m *ssa.MakeMap) bool {
 
 func init() {
 	register(&Def{ID: "C36", Run: c36,
-		Explain:     "Decides on SSA for the remote lookup stream: (LOCKSET) every access to the captured queue/flags and the value-id set happens inside a function literal passed to HoldLock of the function's own local broadcast guard; (R1) Exists is queued only when the id was inserted and len(values)==1, Removed only when the id was a member, was deleted and len(values)==0, an Idle change only when the idle state differs from the last reported one (which is then recorded); (WAITCH) the send loop re-obtains its wait channel in every iteration; (MIRROR) component ids are base58(protobuf(request)) in both directions; the lookup directive carries the requested service id. (OWNERSHIP) the critical section that hands the pending batch to the sender resets the shared queue to storage of its own (nil / fresh slice). EQUIV obligations of lookupRpcService; (MUSTCALL) every exit of the idle callback saw 'unchanged' or recorded and queued the change; the proxying resolver forgets the id of a removed value.",
+		Explain:     "Decides on SSA for the remote lookup stream: (LOCKSET) every access to the captured queue/flags and the value-id set happens inside a function literal passed to HoldLock of the function's own local broadcast guard; (R1) Exists is queued only when the id was inserted and len(values)==1, Removed only when the id was a member, was deleted and len(values)==0, an Idle change only when the idle state differs from the last reported one (which is then recorded); (WAITCH) the send loop re-obtains its wait channel in every iteration; (MIRROR) component ids are base58(protobuf(request)) in both directions; the lookup directive carries the requested service id. (OWNERSHIP) the critical section that hands the pending batch to the sender resets the shared queue to storage of its own (nil / fresh slice). EQUIV obligations of lookupRpcService; (MUSTCALL) every exit of the idle callback saw 'unchanged' or recorded and queued the change; the proxying resolver forgets the id of a removed value. (WAITCH) the first wait channel is obtained before the directive's callbacks are registered.",
 		NotCov:      "ordering of announcements on the wire over all callback interleavings; the directive bus's own value bookkeeping.",
 		Assumptions: commonAssumptions})
 }
